@@ -36,7 +36,7 @@ CLAIMED["C18"] = (
 
 for _pid, _what in (("C10", "enum detection (members, values, comments, Kind, IsIota soundness/completeness)"), ("C11", "union detection, membership and order, Struct.Implements of every reachable struct node instance"), ("C12", "type graph closure, classification, Type() identity, field identity with embedded flattening, source order, termination")):
     CLAIMED[_pid] = (
-        "reference-model monitor: gomacro's analysis result compared in-process with an independent go/types + go/ast walk over synthesised programs",
+        "reference-model monitor: gomacro's analysis result compared in-process with an independent go/types + go/ast walk over synthesised programs; the exact member values are also read back from the generated TypeScript enum objects",
         "Synthesised programs covering the declaration forms of the quantifier are analysed by the real NewAnalysisFromFile in worker processes; an oracle written independently of gomacro (go/types, go/ast, types.Implements) computes the expected " + _what + " and every reachable node of the result is compared with it. Held on the programs produced (counts and feature histogram in evidence).",
         "Trusted: go/types objects delivered by packages.Load; the reference model in harness/monitors/oracle_analysis.go / oracle_c12.go as the specification.",
         "DESIGN.md section 5 / " + _pid,
@@ -55,7 +55,7 @@ CLAIMED["C02"] = (
     "DESIGN.md section 5 / C02",
 )
 CLAIMED["C15"] = (
-    "runtime monitor in the compiled package: generated rand functions called repeatedly, values inspected by reflection, stack exhaustion attributed per function",
+    "runtime monitor in the compiled package: generated rand functions called repeatedly, values inspected by reflection, stack exhaustion and package initialisation crashes attributed per function, bounded-progress rule for calls that do not return",
     "Every generated rand<ID>() is called repeatedly under a seeded source; values are checked by reflection against enum/union tables computed from go/types (exported constants, non-nil members, populated containers, skipped fields zero), must vary, and go through the C02 JSON round trip; functions of recursive programs run one per process so that non-termination (deterministic stack limit) is attributed. Held on the calls made; the recursion defect is a pinned known finding.",
     "Trusted: registry written by the driver from go/types; 'populated' = at least one element.",
     "DESIGN.md section 5 / C15",
@@ -75,14 +75,14 @@ CLAIMED["C09"] = (
     "DESIGN.md section 5 / C09",
 )
 CLAIMED["C07"] = (
-    "hash monitor over repeated executions: same package, fresh loads, fresh processes and the real cmd binary; Go's randomised map iteration as scheduler, observed orders counted",
+    "hash monitor over repeated executions: same analysis generated twice and with the targets in reverse order, same package, fresh loads, fresh processes and the real cmd binary; Go's randomised map iteration as scheduler, observed orders counted",
     "Every output text of the eight targets is regenerated K times on the same loaded package, k times after fresh loads and in p fresh processes, and the real gomacro command is run repeatedly in config mode; all texts and file sets must be identical. The run records how many distinct map iteration orders it observed. Held on the repetitions made.",
     "Trusted: sha256/byte comparison; raw generator text (no formatter installed).",
     "DESIGN.md section 5 / C07",
 )
 
 CLAIMED["C06"] = (
-    "structural monitor over generated Dart: token-level extraction of keys, dispatch tables, enum tables, definitions and imports, compared with ground truth from encoding/json (compiled package) and go/types",
+    "structural monitor over generated Dart: token-level extraction of keys, dispatch tables, enum tables, definitions and imports, compared with ground truth from encoding/json (compiled package) and go/types; Dart is generated last, on analyses the other targets have already used, as the command line does",
     "dart.Generate runs on 1-3 source files per program under both root layouts; from the emitted files the harness extracts, per struct, the keys read/written and constructor arity; per union, the Kind/Data dispatch sets and implements clauses; per enum, the value list and wire table; and resolves every used name with Dart's import rules (duplicates, undefined, ambiguous, self import), plus one-file-per-package. Expected values come from json.Marshal in the compiled package, go/types and the reference model. Held on the programs produced.",
     "Dart cannot be executed here (no SDK): only the extracted relations are decided. Trusted: harness/dartmodel extractor (unit-tested on the repo's samples).",
     "DESIGN.md section 5 / C06",
